@@ -489,31 +489,42 @@ Next ==
   \/ UStoreOK \/ UStoreFail
   \/ \E T \in 1..MaxTid : Pack(T)
 
-(* sub-relations that direct simulation (a uniform walk spends its depth on Blob API calls) *)
+(* Sub-relations that direct simulation and bound model checking (a uniform walk spends its depth on Blob API
+   calls).  Every disjunct stays a named action with constant-range arguments so that TLC labels the steps; a
+   name ending in Q is the action of the same name under a scheduling guard. *)
 Pending == ~IsClean(con)
-Edit ==
-  \/ \E b \in Blobs, c0 \in Contents1 : CreateBlob(b, c0)
-  \/ \E b \in Blobs, x \in Atoms : Rewrite(b, x)
-  \/ \E b \in Blobs, x \in Atoms : Append_(b, x)
-  \/ \E b \in Blobs, x \in Atoms : ConsumeFile(b, x)
-  \/ \E v \in PVals : ModifyP(v)
-\* at most two edits in a row before the transaction moves on
-FewEdits == Len(con.reg) + Cardinality(con.newb) < 3
-EditQ == FewEdits /\ Edit
+\* at most two objects changed before the transaction moves on
+FewEdits == Len(con.reg) + Cardinality(con.newb) < 2
+CreateBlobQ(b, c0) == FewEdits /\ CreateBlob(b, c0)
+RewriteQ(b, x) == FewEdits /\ Rewrite(b, x)
+AppendQ(b, x) == FewEdits /\ Append_(b, x)
+ConsumeFileQ(b, x) == FewEdits /\ ConsumeFile(b, x)
+ModifyPQ(v) == FewEdits /\ ModifyP(v)
+EditQ ==
+  \/ \E b \in Blobs, c0 \in Contents1 : CreateBlobQ(b, c0)
+  \/ \E b \in Blobs, x \in Atoms : RewriteQ(b, x)
+  \/ \E b \in Blobs, x \in Atoms : AppendQ(b, x)
+  \/ \E b \in Blobs, x \in Atoms : ConsumeFileQ(b, x)
+  \/ \E v \in PVals : ModifyPQ(v)
 Tpc == TpcBegin \/ StoreOK \/ StoreFail \/ Vote \/ Finish
 AbortPath == ConnAbort \/ TpcAbort
-ConnAbortFailed == txn.phase = "failed" /\ ConnAbort
-TpcAbortFailed == txn.phase = "caborted" /\ TpcAbort
+ConnAbortQ == txn.phase = "failed" /\ ConnAbort          \* only the abort a failed store forces
+TpcAbortQ == txn.phase = "caborted" /\ TpcAbort
 Other == \E o \in 1..(NBlob + 1), x \in Atoms \cup PVals : OtherCommit(o, x)
-OtherQ == Pending /\ Other          \* a second writer matters when it races with c1
+OtherCommitQ(o, x) == Pending /\ OtherCommit(o, x)      \* a second writer that races with c1
+OtherQ == \E o \in 1..(NBlob + 1), x \in Atoms \cup PVals : OtherCommitQ(o, x)
 UndoAll == (\E t \in 3..MaxTid : UBegin(t)) \/ UStoreOK \/ UStoreFail
 PackAny == \E T \in 1..MaxTid : Pack(T)
+\* the packer transcription is costly to evaluate: in simulation a pack is tried right after a commit only,
+\* at the tid boundaries not yet packed away
+PackQ(T) == res.call \in {"tpc_finish", "other", "pack"} /\ T \in TidsOf(hist) /\ T >= packed[1] /\ Pack(T)
+PackSome == \E T \in 1..MaxTid : PackQ(T)
 Sp == Savepoint \/ \E k \in 1..MaxSp : Rollback(k)
 
-NextCommit == EditQ \/ Tpc \/ ConnAbortFailed \/ TpcAbortFailed \/ OtherQ
+NextCommit == EditQ \/ Tpc \/ ConnAbortQ \/ TpcAbortQ \/ OtherQ
 NextAbort  == EditQ \/ Tpc \/ AbortPath \/ AbortTxn \/ OtherQ
 NextUndo   == EditQ \/ Tpc \/ AbortPath \/ Other \/ UndoAll
-NextPack   == EditQ \/ Tpc \/ ConnAbortFailed \/ TpcAbortFailed \/ Other \/ UndoAll \/ PackAny
+NextPack   == EditQ \/ Tpc \/ ConnAbortQ \/ TpcAbortQ \/ Other \/ UndoAll \/ PackSome
 NextSp     == EditQ \/ Tpc \/ AbortPath \/ AbortTxn \/ OtherQ \/ Sp
 
 (* ------------------------------ properties ------------------------------ *)
